@@ -108,6 +108,19 @@ def main():
     if not (pv[0] == "ok" and pv[1] == "3"):
         rep.violation("c01:false-rejection:address-of-element-of-array-variable", {
             "why": "`bump(&g[1])` with `g: [3]i32` and `fn bump(r: &i32)` should compile and return 3: " + pa[:200], "source": probe})
+    # an entry point without a return value: whatever the body does last (a print!, a call, a jump to its end), the
+    # program exits with status 0 (it used to exit with whatever the last call left in the return register)
+    for body in ('\tprint!("77\\n");\n', '\tvar x: i32 = 5;\n\tprint!(x, " and ", x + 1, "\\n");\n', "\thelper();\n",
+                 "\tvar x: i32 = helper2();\n\tif x == 41\n\t{\n\t\tgoto end;\n\t}\n\thelper();\n\tend:\n", ""):
+        vsrc = 'fn helper()\n{\n\tprint!("helping\\n");\n}\nfn helper2() -> i32\n{\n\treturn: 41\n}\nfn main()\n{\n' + body + "}\n"
+        va = runlib.impl_run([vsrc])[0]
+        vv = runlib.impl_obs(va)
+        dist["void-main"] += 1
+        if vv[0] == "ok" and vv[1] == "0":
+            agreeing += 1
+        else:
+            rep.violation("c01:void-main-exit-status:%x" % hash_str(vsrc), {
+                "why": "a program whose entry point has no return value must exit with status 0: " + va[:200], "source": vsrc})
     # long loops: a terminating loop of 2 000 000 rounds with local variables (scalars, an array, a structure) declared in
     # the looped block; the stack must not grow with the number of rounds (F54)
     for k, (n, decls, expr, want) in enumerate([
